@@ -46,6 +46,7 @@ class Hist:
         # a nested-graph node seen THROUGH a derivation made now (before this snapshot reads anything from the node itself): renaming
         # its first input / output must give the same object whenever it is done - before or after the receiver was used
         probe = None
+        hist0 = repr(getattr(n, "_rename_history", None))
         if hasattr(n, "map_config") and n.inputs:
             try:
                 v = n.with_inputs(**{n.inputs[0]: "zz_probe_in"})
@@ -55,6 +56,9 @@ class Hist:
                     probe.append([list(w.outputs), w.map_outputs_from_original({o: i for i, o in enumerate(n.graph.outputs)})])
             except Exception as e:  # noqa: BLE001
                 probe = type(e).__name__
+            if repr(getattr(n, "_rename_history", None)) != hist0:
+                self.violations.append(f"deriving renamed copies from node {n.name} changed the node itself: its rename history was {hist0} and is now "
+                                       f"{getattr(n, '_rename_history', None)!r}")
         d = {"derived_now": probe, "name": n.name, "inputs": list(n.inputs), "outputs": list(n.outputs), "hash": n.definition_hash,
              "defaults": {p: n.get_default_for(p) for p in n.inputs if n.has_default_for(p)},
              "types": {p: repr(n.get_input_type(p)) for p in n.inputs}}
